@@ -13,7 +13,7 @@ ASSUMPTIONS = [
     "templates between centre and full ITS (radius 1/2, partial second shell) are judged for (a)-(c) only; regeneration (C04) is stated for centre and full templates",
 ]
 RULE = {
-    "quick": "every usable reaction (corpus + 28 hand-written explicit-hydrogen reactions: charged look-alike atoms, duplicated molecules, aromatic ring formation, unsymmetrical cycloaddition) x own template "
+    "quick": "every usable reaction (corpus + 28 hand-written explicit-hydrogen reactions + the 112 explicit-hydrogen reactions whose hydrogens all have one heavy neighbour once more with every hydrogen implicit, in implicit-H mode; the hand-written ones cover charged look-alike atoms, duplicated molecules, aromatic ring formation, unsymmetrical cycloaddition) x own template "
     "{centre: all/bt; full ITS: bt/comp; centre + radius 1 / radius 2; centre + first shell + one second-shell atom (4 of them, look-alike siblings first); the reaction string itself} x {forward, backward}; "
     "round trips: the template as a string (centre and full) on two copies of the reactants, then the opposite direction on each product mixture, and backwards first under another numbering; "
     "every centre template x 2 substrates of other reactions x {forward, backward} x {all, bt}; 4 wildcard rules x 12 substrates; every output judged; non-trivial = at least one output",
